@@ -555,10 +555,13 @@ where
                         let take = ctx.rng.range(0, b - a + 1);
                         let mut exp_model = model.clone();
                         let removed: Vec<u32> = exp_model.splice(a..b, news.iter().copied()).collect();
+                        // `take` elements from the front of the removed range, then up to `take_back` from its back
+                        let take_back = ctx.rng.range(0, 2).min(removed.len().saturating_sub(take.min(removed.len())));
                         let mut expect: Vec<u32> = removed.iter().copied().take(take).collect();
+                        expect.extend(removed.iter().rev().copied().take(take_back));
                         expect.push(u32::MAX);
                         expect.extend(exp_model.iter().copied());
-                        consuming::<E>(ctx, &format!("BumpVec::splice {a}..{b} with {n_new} new, pulling {take}"), expect, || {
+                        consuming::<E>(ctx, &format!("BumpVec::splice {a}..{b} with {n_new} new, pulling {take} front / {take_back} back"), expect, || {
                             let mut out: Vec<u32> = Vec::new();
                             {
                                 let mut sp = v.splice(a..b, news.iter().map(|x| {
@@ -567,6 +570,13 @@ where
                                 }));
                                 for _ in 0..take {
                                     match sp.next() {
+                                        Some(e) => out.push(e.val()),
+                                        None => break,
+                                    }
+                                    tr::burn();
+                                }
+                                for _ in 0..take_back {
+                                    match sp.next_back() {
                                         Some(e) => out.push(e.val()),
                                         None => break,
                                     }
